@@ -31,6 +31,7 @@ import (
 	"github.com/containerd/continuity/fs"
 	"github.com/containerd/errdefs"
 	"github.com/containerd/log"
+	"github.com/containerd/stargz-snapshotter/util/verifhook"
 	"github.com/moby/sys/mountinfo"
 	"golang.org/x/sync/errgroup"
 )
@@ -244,6 +245,7 @@ func (o *snapshotter) Prepare(ctx context.Context, key, parent string, opts ...s
 	if err != nil {
 		return nil, err
 	}
+	verifhook.Point("snap.prepare.afterCreate", o.root, key)
 
 	// Try to prepare the remote snapshot. If succeeded, we commit the snapshot now
 	// and return ErrAlreadyExists.
@@ -263,8 +265,10 @@ func (o *snapshotter) Prepare(ctx context.Context, key, parent string, opts ...s
 			log.G(lCtx).WithField(remoteSnapshotLogKey, prepareFailed).
 				WithError(err).Warn("failed to prepare remote snapshot")
 		} else {
+			verifhook.Point("snap.prepare.afterBackendMount", o.root, key)
 			base.Labels[remoteLabel] = remoteLabelVal // Mark this snapshot as remote
 			err := o.commit(ctx, true, target, key, append(opts, snapshots.WithLabels(base.Labels))...)
+			verifhook.Point("snap.prepare.afterInternalCommit", o.root, key)
 			if err == nil || errdefs.IsAlreadyExists(err) {
 				// count also AlreadyExists as "success"
 				log.G(lCtx).WithField(remoteSnapshotLogKey, prepareSucceeded).Debug("prepared remote snapshot")
@@ -343,6 +347,8 @@ func (o *snapshotter) commit(ctx context.Context, isRemote bool, name, key strin
 	}
 
 	rollback = false
+	verifhook.Point("snap.commit.beforeTxCommit", o.root, key)
+	defer verifhook.Point("snap.commit.afterTxCommit", o.root, key)
 	return t.Commit()
 }
 
@@ -366,6 +372,7 @@ func (o *snapshotter) Remove(ctx context.Context, key string) (err error) {
 	if err != nil {
 		return fmt.Errorf("failed to remove: %w", err)
 	}
+	verifhook.Point("snap.remove.afterStorageRemove", o.root, key)
 
 	if !o.asyncRemove {
 		var removals []string
@@ -381,6 +388,7 @@ func (o *snapshotter) Remove(ctx context.Context, key string) (err error) {
 		defer func() {
 			if err == nil {
 				for _, dir := range removals {
+					verifhook.Point("snap.remove.beforeDirCleanup", o.root, dir)
 					if err := o.cleanupSnapshotDirectory(ctx, dir); err != nil {
 						log.G(ctx).WithError(err).WithField("path", dir).Warn("failed to remove directory")
 					}
@@ -417,6 +425,7 @@ func (o *snapshotter) cleanup(ctx context.Context, cleanupCommitted bool) error 
 
 	log.G(ctx).Debugf("cleanup: dirs=%v", cleanup)
 	for _, dir := range cleanup {
+		verifhook.Point("snap.cleanup.beforeDirCleanup", o.root, dir)
 		if err := o.cleanupSnapshotDirectory(ctx, dir); err != nil {
 			log.G(ctx).WithError(err).WithField("path", dir).Warn("failed to remove directory")
 		}
@@ -500,6 +509,7 @@ func (o *snapshotter) cleanupSnapshotDirectory(ctx context.Context, dir string) 
 	if err := o.fs.Unmount(ctx, mp); err != nil {
 		log.G(ctx).WithError(err).WithField("dir", mp).Debug("failed to unmount")
 	}
+	verifhook.Point("snap.cleanupdir.afterUnmount", o.root, dir)
 	if err := os.RemoveAll(dir); err != nil {
 		return fmt.Errorf("failed to remove directory %q: %w", dir, err)
 	}
@@ -545,11 +555,13 @@ func (o *snapshotter) createSnapshot(ctx context.Context, kind snapshots.Kind, k
 			}
 		}
 	}()
+	verifhook.Point("snap.create.afterTempDir", o.root, key)
 
 	s, err := storage.CreateSnapshot(ctx, kind, key, parent, opts...)
 	if err != nil {
 		return storage.Snapshot{}, fmt.Errorf("failed to create snapshot: %w", err)
 	}
+	verifhook.Point("snap.create.afterCreateInTx", o.root, key)
 
 	if len(s.ParentIDs) > 0 {
 		st, err := os.Stat(o.upperPath(s.ParentIDs[0]))
@@ -572,11 +584,13 @@ func (o *snapshotter) createSnapshot(ctx context.Context, kind snapshots.Kind, k
 		return storage.Snapshot{}, fmt.Errorf("failed to rename: %w", err)
 	}
 	td = ""
+	verifhook.Point("snap.create.afterRename", o.root, key)
 
 	rollback = false
 	if err = t.Commit(); err != nil {
 		return storage.Snapshot{}, fmt.Errorf("commit failed: %w", err)
 	}
+	verifhook.Point("snap.create.afterCommit", o.root, key)
 
 	return s, nil
 }
@@ -792,6 +806,7 @@ func (o *snapshotter) restoreRemoteSnapshot(ctx context.Context) error {
 		}(); err != nil {
 			return fmt.Errorf("failed to create remote snapshot directory: %s: %w", info.Name, err)
 		}
+		verifhook.Point("snap.restore.beforeMount", o.root, info.Name)
 		if err := o.prepareRemoteSnapshot(ctx, info.Name, info.Labels); err != nil {
 			if o.allowInvalidMountsOnRestart {
 				log.G(ctx).WithError(err).Warnf("failed to restore remote snapshot %s; remove this snapshot manually", info.Name)
